@@ -30,13 +30,18 @@ def run(repo):
     dm = repo.func('lp.Model.do_math')
     res.functions.add(dm.fq)
     iters = []
+    from .common import single_defs, expand_locals
+    defs = single_defs(dm.node)          # a local alias of the constraint list is the same list
     for n in walk_no_nested(dm.node):
         if isinstance(n, (ast.ListComp, ast.GeneratorExp)):
             for g in n.generators:
-                if any(is_self_attr(x, 'lin_constr') for x in ast.walk(g.iter)):
-                    iters.append((ntext(g.iter), ntext(n.elt)[:50]))
-        elif isinstance(n, ast.For) and any(is_self_attr(x, 'lin_constr') for x in ast.walk(n.iter)):
-            iters.append((ntext(n.iter), 'for-loop (indptr)'))
+                it = expand_locals(dm.node, g.iter, defs=defs)
+                if any(is_self_attr(x, 'lin_constr') for x in ast.walk(it)):
+                    iters.append((ntext(it), ntext(n.elt)[:50]))
+        elif isinstance(n, ast.For):
+            it = expand_locals(dm.node, n.iter, defs=defs)
+            if any(is_self_attr(x, 'lin_constr') for x in ast.walk(it)):
+                iters.append((ntext(it), 'for-loop (indptr)'))
     if len(iters) < 6:
         raise AnalysisError('lp.Model.do_math: only %d iterations over lin_constr found' % len(iters))
     base = iters[0][0]
@@ -111,15 +116,22 @@ def run(repo):
                          'label equals the constraint\'s own index', repo.where(ld), P))
     bd = repo.func('lp.Bounds.dual')
     btxt = ntext(bd.node)
-    ok = "y['upi']" in btxt and "y['lpi']" in btxt and btxt.count('pi[self.indices]') >= 2
-    # the U branch must read upi, the L branch lpi
+    # every arm of the chain on self.btype reads the multipliers of its own side, at self.indices
+    from rsx.dispatch import chain_tests
+    from .common import const_str
+    arms = {}
     for n in walk_no_nested(bd.node):
-        if isinstance(n, ast.If) and "self.btype == 'U'" == ntext(n.test):
-            if "'upi'" not in ' '.join(ntext(s) for s in n.body):
-                ok = False
-            nxt = n.orelse[0] if n.orelse and isinstance(n.orelse[0], ast.If) else None
-            if nxt is None or "'lpi'" not in ' '.join(ntext(s) for s in nxt.body):
-                ok = False
+        if isinstance(n, ast.If) and isinstance(n.test, ast.Compare) and ntext(n.test.left) == 'self.btype' \
+                and not arms:
+            tests, _els = chain_tests(n)
+            for t, body in tests:
+                if isinstance(t, ast.Compare) and ntext(t.left) == 'self.btype' and isinstance(t.ops[0], ast.Eq) \
+                        and const_str(t.comparators[0]) is not None:
+                    arms[const_str(t.comparators[0])] = ' '.join(ntext(s_) for s_ in body)
+    if set(arms) != {'U', 'L'}:
+        raise AnalysisError('Bounds.dual: arms for btype U and L not found (%s)' % sorted(arms))
+    ok = "'upi'" in arms['U'] and "'lpi'" not in arms['U'] and "'lpi'" in arms['L'] and "'upi'" not in arms['L'] \
+        and all('[self.indices]' in a for a in arms.values())
     res.inst({'Bounds.dual': 'U -> upi, L -> lpi, indexed by self.indices', 'ok': ok}, ok)
     if not ok:
         res.fail(Finding(RULE, bd.fq, 'upi/lpi', 'Bounds.dual must read upper-bound multipliers for '
